@@ -25,6 +25,28 @@ pub const O_RELEASE: u32 = 1 << 6; // C13 (drop/detach/dealloc effects)
 pub const O_LAYOUT: u32 = 1 << 7; // C16 (reserved immutable, remaining = cap - allocated, first offset)
 pub const O_REWIND: u32 = 1 << 8; // C17
 pub const O_ALL: u32 = 0x1ff;
+/// C04: every access the operation makes to shared memory (atomic accesses, zeroing) lies inside the arena
+pub const O_BOUNDS: u32 = 1 << 9;
+
+thread_local! {
+  /// (address, length, is the arena's zeroing write) of every reported access of the current operation
+  static ACCESSES: std::cell::RefCell<Vec<(usize, usize, bool)>> = const { std::cell::RefCell::new(Vec::new()) };
+}
+
+struct BoundsHook;
+static BOUNDS_HOOK: BoundsHook = BoundsHook;
+
+impl rarena_allocator::verif::Hook for BoundsHook {
+  fn before(&self, ev: &rarena_allocator::verif::Event) {
+    ACCESSES.with(|a| a.borrow_mut().push((ev.addr, ev.size as usize, false)));
+  }
+  fn after(&self, _: &rarena_allocator::verif::Event, _: u64, _: u64, _: bool) {}
+  fn spin(&self, _: bool) {}
+  fn plain_write(&self, addr: usize, len: usize) {
+    ACCESSES.with(|a| a.borrow_mut().push((addr, len, true)));
+  }
+  fn teardown(&self, _: usize, _: usize) {}
+}
 
 pub fn prop_of(flag: u32) -> &'static str {
   match flag {
@@ -37,6 +59,7 @@ pub fn prop_of(flag: u32) -> &'static str {
     O_RELEASE => "C13",
     O_LAYOUT => "C16",
     O_REWIND => "C17",
+    O_BOUNDS => "C04",
     _ => "C??",
   }
 }
@@ -605,6 +628,36 @@ impl<A: Subject> Runner<A> {
 
   /// Execute one operation; `None` when the operation is disabled in this state.
   pub fn step(&mut self, op: Op, or: u32, v: &mut Vec<Viol>) -> Option<Obs> {
+    if or & O_BOUNDS == 0 {
+      return self.step_inner(op, or, v);
+    }
+    // the arena reports its accesses to this thread's hook while the operation runs
+    ACCESSES.with(|a| a.borrow_mut().clear());
+    rarena_allocator::verif::install(Some(&BOUNDS_HOOK));
+    struct Uninstall;
+    impl Drop for Uninstall {
+      fn drop(&mut self) {
+        rarena_allocator::verif::install(None);
+      }
+    }
+    let guard = Uninstall;
+    let r = self.step_inner(op, or, v);
+    drop(guard);
+    let rg = self.a.ranges();
+    let inside = |lo: usize, len: usize, base: usize, blen: usize| lo >= base && lo + len <= base + blen;
+    let acc = ACCESSES.with(|a| std::mem::take(&mut *a.borrow_mut()));
+    for (addr, len, zeroing) in acc {
+      let ok = if zeroing { len == 0 || inside(addr, len, rg.base, rg.cap) } else { inside(addr, len, rg.base, rg.cap) || inside(addr, len, rg.header, rg.header_len) || inside(addr, len, rg.memory_box, rg.memory_box_len) };
+      if !ok {
+        let rel = addr as i128 - rg.base as i128;
+        v.push(Viol { flag: O_BOUNDS, class: if zeroing { "zeroing-outside-arena".into() } else { "atomic-access-outside-arena".into() }, msg: format!("{}: {} of {} byte(s) at arena offset {} (capacity {})", op.short(), if zeroing { "zeroing write" } else { "atomic access" }, len, rel, rg.cap) });
+        break;
+      }
+    }
+    r
+  }
+
+  fn step_inner(&mut self, op: Op, or: u32, v: &mut Vec<Viol>) -> Option<Obs> {
     let a = self.a;
     match op {
       Op::B(_) | Op::BO(_) | Op::AB(..) | Op::ABO(..) | Op::T(_) | Op::TO(_) => {
